@@ -76,6 +76,38 @@ pub fn run(ctx: &mut Ctx, _args: &Args) {
         }
     }
 
+    // (a) stores in which one row shape holds more than 0xFFFF distinct delta sets (that
+    // encoding is split over several subtables) with cheaper and costlier shapes around
+    // it. One work item (= one shard) per store; spread so that they do not land on
+    // neighbouring shards.
+    let variants: &[u32] = ctx.tier.pick(&[0u32, 1, 0][..], &[0, 1, 0, 2, 3, 0, 1, 3][..]);
+    for (k, variant) in variants.iter().enumerate() {
+        item += 1;
+        let slot = (k * 5 + 3) % ctx.shard.1.max(1);
+        if ctx.shard.0 != slot {
+            continue;
+        }
+        let mut rng = Rng::derive(ctx.seed, "c11-store-huge-mixed", k as u64);
+        let case = wl_store::gen_huge_mixed_case(&mut rng, k as u64, *variant);
+        let Some(built) = wl_store::check_store(ctx, &case) else { continue };
+        // (b) on rows from every subtable, in particular those after the split
+        let mut slots = built.index.clone();
+        slots.sort_unstable();
+        slots.dedup();
+        let mut pick: Vec<(u16, u16)> = vec![];
+        let mut per_outer: std::collections::BTreeMap<u16, usize> = Default::default();
+        rng.shuffle(&mut slots);
+        for s in slots {
+            let c = per_outer.entry(s.0).or_insert(0);
+            if *c < 6 {
+                *c += 1;
+                pick.push(s);
+            }
+        }
+        let id = format!("huge-mixed-{}", k);
+        wl_store::check_compute_delta(ctx, &built.bytes, &id, &pick, ctx.tier.pick(4, 8), &mut rng);
+    }
+
     // DeltaSetIndexMap
     let n = ctx.tier.pick(12_000usize, 250_000);
     for i in 0..n {
